@@ -32,20 +32,9 @@ def wdPair (fx : Fixes) (st : NsStack) : Option (Bytes × Bytes) → Reserved
 def tagPairs (fx : Fixes) (st : NsStack) (ns : Bytes) (wd : Option (Bytes × Bytes)) (metas : List DMeta) (valMods : ValMods) : Reserved :=
   wdPair fx (nsDefault st ns).2 wd ++ metaPairs metas ++ valMods
 
-def prefixesDistinct : ValMods → Bool
-  | [] => true
-  | e :: r => !(r.any fun x => x.1 == e.1) && prefixesDistinct r
-
-/-- F301 (before the repair): the prefixes `xml_print_term` writes itself are pairwise different and none of them is declared by
-    the open part of the start tag -/
-def rawOkB (fx : Fixes) (st : NsStack) (ns : Bytes) (wd : Option (Bytes × Bytes)) (metas : List DMeta) (valMods : ValMods) : Bool :=
-  fx.termNs || (prefixesDistinct valMods &&
-    valMods.all fun e => !((declared (dataOpenItems fx st ns wd metas).1).any fun d => d.1 == some e.1))
-where
-  declared : List Item → NsStack
-    | [] => []
-    | .decl p u :: r => (p, u) :: declared r
-    | .attr _ _ _ :: r => declared r
+/-- F301: before the repair `xml_print_term` writes the declarations for the prefixes inside the value itself, whatever the open part
+    of the start tag has declared; the theorem then covers the terminal nodes whose value has no prefixes of other modules -/
+def rawOkB (fx : Fixes) (valMods : ValMods) : Bool := fx.termNs || valMods.isEmpty
 
 /-- one start tag: names, prefixes and strings are well-formed; F49: the start tag needs ONE namespace per prefix
     (`consistentB (tagPairs …)`); the attributes differ by expanded name; F301 -/
@@ -53,7 +42,7 @@ def tagOkB (fx : Fixes) (st : NsStack) (ns name : Bytes) (wd : Option (Bytes × 
     (valMods : ValMods) : Bool :=
   nameOkB name && noCtlB ns && noCtlB value && metas.all metaOkB && modsOkB valMods && wdOkB wd &&
     consistentB (tagPairs fx st ns wd metas valMods) && noDupAttrs (viewWd wd ++ metas.map viewMeta) &&
-    rawOkB fx st ns wd metas valMods
+    rawOkB fx valMods
 
 mutual
 def dnodeOkB (fx : Fixes) (st : NsStack) : DNode → Bool
@@ -75,7 +64,7 @@ def tagWhy (fx : Fixes) (st : NsStack) (ns name : Bytes) (wd : Option (Bytes × 
   (if nameOkB name && noCtlB ns && noCtlB value && metas.all metaOkB && modsOkB valMods && wdOkB wd then [] else ["names-or-control-chars"]) ++
   (if consistentB (tagPairs fx st ns wd metas valMods) then [] else ["F49:two-namespaces-for-one-prefix-in-a-start-tag"]) ++
   (if noDupAttrs (viewWd wd ++ metas.map viewMeta) then [] else ["duplicate-attr"]) ++
-  (if rawOkB fx st ns wd metas valMods then [] else ["F301:value-prefix-declared-twice"])
+  (if rawOkB fx valMods then [] else ["F301:value-prefixes-written-by-xml_print_term-itself"])
 
 mutual
 def dnodeWhy (fx : Fixes) (st : NsStack) : DNode → List String
